@@ -141,3 +141,63 @@ def float_checks(ctx, traces, scenarios, wanted):
     ctx.add_stage("float checks of every recomputed explanation (per-feature average, efficiency)", "float_twin", explanations=n)
     ctx.evaluations += n
     ctx.count_clause("float.batch.*", n)
+
+
+def _harness_ordinal(spec_k, m, d, n, imputer_mode):
+    """translate the ordinal of a callback of spec/BatchSage.tla (batch model call = 1 callback, no separate imputer
+    entry) into the harness's ordinal (one callback per row of the batch call, imputer entry counted)"""
+    spec_seq, har_seq = [], []
+    spec_seq.append("batch")
+    har_seq += [("batch", j == 0) for j in range(m)]
+    for i in range(m):
+        spec_seq.append("lossmarg")
+        har_seq.append(("lossmarg", True))
+        for j in range(d):
+            if imputer_mode:
+                har_seq.append(("impute", False))
+            for k in range(n):
+                spec_seq.append("imodel")
+                har_seq.append(("imodel", True))
+            spec_seq.append("lossfeat")
+            har_seq.append(("lossfeat", True))
+    # the spec_k-th spec callback corresponds to the spec_k-th harness entry flagged True
+    cnt = 0
+    for idx, (kind, flag) in enumerate(har_seq):
+        if flag:
+            cnt += 1
+            if cnt == spec_k:
+                return idx + 1
+    return None
+
+
+def replay_batch_fault_behaviour(rec, d, n_inner):
+    """one behaviour of spec/BatchSage.tla (single explanation, possibly failing at a callback) replayed into BatchSage"""
+    data = rec["data"]
+    m = len(data)
+    script = []
+    for i in range(len(rec["orders"])):
+        script.append(("perm", d, [f - 1 for f in rec["orders"][i]]))
+        for r in rec["draws"][i]:
+            script.append(("uniform", m, r - 1))
+    fault = None
+    if rec["fault"]:
+        fault = (0, _harness_ordinal(rec["fault"], m, d, n_inner, rec["mode"] == "imputer"))
+    sc = GB.BatchScenario(cls="batch", mode="many" if rec["mode"] == "imputer" else "original", d=d, n_inner=n_inner,
+                          tables="spec", rows=[([F(v) for v in it[0]], it[1]) for it in data], fault=fault)
+    try:
+        tr = GB.run(sc, tape_mode="script", script=script)
+    except TapeMismatch as e:
+        return [("replay.batch.draw_range" if e.reason == "range" else "replay.batch.not_followed", str(e))], None
+    c = tr["calls"][0]
+    probs = []
+    want_out = "ret" if rec["outcome"] == "ok" else "exc"
+    if c["outcome"] != want_out:
+        return [("replay.batch.outcome", "specification %s, implementation %s %s" % (want_out, c["outcome"], c["exc"]))], tr
+    want = {i + 1: qpair(v) for i, v in enumerate(rec["values"])}
+    got = c["raw_values"]
+    clause = "replay.batch.fault_atomic" if want_out == "exc" else "replay.batch.values"
+    for f, w in want.items():
+        g = got.get(f)
+        if g is None or not math.isfinite(float(g)) or abs(float(g) - float(w)) > 1e-9 * (1 + abs(float(w))):
+            probs.append((clause, "feature %d: implementation %r, specification %s (fault at spec callback %s)" % (f, g, w, rec["fault"])))
+    return probs, tr
